@@ -25,6 +25,12 @@ Verdict(ev) ==
               ELSE IF St(ev.post) # St(ev.pre) THEN "derivation_changed_source"
               ELSE IF St(ev.new) # Reorder(St(ev.pre), ev.sel) THEN "derived_bus"
               ELSE "ok"
+         [] ev.name = "export" ->               \* bus.to_zip_*(another file): every Frame is visited (one at a time under a bound) and written
+              LET u == LoadAll(St(ev.pre), File(ev), 0) IN
+              IF ev.outcome # u.outcome THEN (IF u.outcome = "store_mutation" THEN "stale_file_not_reported" ELSE "outcome")
+              ELSE IF St(ev.post) # u.bus THEN (IF ~Bounded(St(ev.post)) THEN "max_persist_exceeded" ELSE "cache_transition")
+              ELSE IF u.outcome = "ok" /\ ~ev.ok THEN "exported_store_differs"
+              ELSE "ok"
          [] ev.name = "sortvalues" ->
               LET u == LoadAll(St(ev.pre), File(ev), 0) IN
               IF ev.outcome # u.outcome THEN (IF u.outcome = "store_mutation" THEN "stale_file_not_reported" ELSE "outcome")
